@@ -1,6 +1,10 @@
 package evidence
 
 import (
+	"time"
+
+	"github.com/kardiachain/go-kardia/kai/state/cstate"
+	"github.com/kardiachain/go-kardia/mainchain/genesis"
 	kproto "github.com/kardiachain/go-kardia/proto/kardiachain/types"
 	"github.com/kardiachain/go-kardia/types"
 )
@@ -139,3 +143,78 @@ func VerifC19_E3(v *VerifV) {
 }
 
 func verifSameID(a, b types.BlockID) bool { return a.Equal(b) }
+
+// ---- E4: the pool's verify (time binding, expiry, validator set of the evidence height) ---------
+
+type verifBlockStore struct {
+	metaTime time.Time
+	have     bool
+}
+
+func (b verifBlockStore) LoadBlockMeta(h uint64) *types.BlockMeta {
+	if !b.have {
+		return nil
+	}
+	return &types.BlockMeta{Header: &types.Header{Height: h, Time: b.metaTime}}
+}
+func (b verifBlockStore) LoadBlockCommit(uint64) *types.Commit { return nil }
+
+type verifStateStore struct{ vals *types.ValidatorSet }
+
+func (s verifStateStore) LoadStateFromDBOrGenesisDoc(*genesis.Genesis) (cstate.LatestBlockState, error) {
+	return cstate.LatestBlockState{}, nil
+}
+func (s verifStateStore) Load() cstate.LatestBlockState   { return cstate.LatestBlockState{} }
+func (s verifStateStore) Save(cstate.LatestBlockState)    {}
+func (s verifStateStore) LoadValidators(uint64) (*types.ValidatorSet, error) { return s.vals, nil }
+func (s verifStateStore) LoadConsensusParams(uint64) (kproto.ConsensusParams, error) {
+	return kproto.ConsensusParams{}, nil
+}
+func (s verifStateStore) PruneState(from, to uint64) (uint64, uint64, uint64) { return 0, 0, 0 }
+
+// VerifC19_E4: Pool.verify on evidence of a real double-sign with an arbitrary timestamp
+// (seconds and nanoseconds symbolic), an arbitrary age in blocks and in time, and the block of
+// the evidence height present or not: accepted iff the block is known, the evidence timestamp
+// IS that block's time (to the nanosecond: the timestamp is part of the evidence hash, a
+// re-stamped copy would be new evidence), and the evidence has not expired (older than both
+// the block and the duration limit).
+func VerifC19_E4(v *VerifV) {
+	types.VerifBind()
+	const N = 2
+	vals, p, total := types.VerifMkVals(N)
+	const H, R = 7, 1
+	v1, g1 := types.VerifSignedVote(0, 0, kproto.PrecommitType, H, R, verifBlockID(1))
+	v2, g2 := types.VerifSignedVote(0, 0, kproto.PrecommitType, H, R, verifBlockID(2))
+	v.Assume(g1 && g2)
+	blockSec, blockNs := int64(1600000000), int64(500000000)
+	blockTime := time.Unix(blockSec, blockNs).UTC()
+	sec := blockSec + int64(v.Choice("second-offset", 3)) - 1
+	ns := v.I64("nanoseconds")
+	v.Assume(ns >= 0 && ns < 1000000000)
+	evTime := time.Unix(sec, ns).UTC()
+	ev := &types.DuplicateVoteEvidence{VoteA: v1, VoteB: v2, TotalVotingPower: total, ValidatorPower: p[0], Timestamp: evTime}
+	have := v.Bool("block-known")
+	ageBlocks := int64(v.Choice("age-blocks", 4)) // state height = H + ageBlocks
+	ageSecs := int64(v.Choice("age-seconds", 4))
+	st := cstate.LatestBlockState{ChainID: types.VerifChain, LastBlockHeight: uint64(H + ageBlocks), LastBlockTime: blockTime.Add(time.Duration(ageSecs) * time.Second)}
+	st.ConsensusParams.Evidence.MaxAgeNumBlocks = 1
+	st.ConsensusParams.Evidence.MaxAgeDuration = 1 * time.Second
+	pool := &Pool{blockStore: verifBlockStore{metaTime: blockTime, have: have}, stateDB: verifStateStore{vals}, state: st}
+	err := pool.verify(ev)
+	sameTime := sec == blockSec && ns == blockNs
+	expired := ageSecs > 1 && ageBlocks > 1
+	want := have && sameTime && !expired
+	if want {
+		v.Assert(err == nil, "C19.pool.valid-evidence-refused")
+		v.Cover("accepted")
+	} else {
+		v.Assert(err != nil, "C19.pool.evidence-accepted-with-wrong-time-age-or-unknown-block")
+		v.Cover("refused")
+	}
+	if have && !sameTime && sec == blockSec {
+		v.Cover("same-second-other-nanosecond")
+	}
+	if expired {
+		v.Cover("expired")
+	}
+}
